@@ -128,8 +128,13 @@ def check_contraction(ch, a, b, sa, sb, axes_a, axes_b, modes, forms=True):
     return want
 
 
-def law_tensordot(ch):
-    pair = ch.draw(gen.contraction_pairs(ferm=True), "pair")
+def law_tensordot(ch, many=False):
+    if many:
+        pair = ch.draw(gen.contraction_pairs(
+            ferm=True, min_con=4, max_ndim=8, ncon_choices=(4, 5, 6, 7),
+            max_size=1, max_charges=2, syms=("Z2", "U1", "Z2Z2")), "pair")
+    else:
+        pair = ch.draw(gen.contraction_pairs(ferm=True), "pair")
     sa, sb = pair["a"], pair["b"]
     a, b = gen.build(sa), gen.build(sb)
     A, B = list(pair["axes_a"]), list(pair["axes_b"])
@@ -378,6 +383,9 @@ LAWS = [
     Law("tensordot", law_tensordot, quick=2400, thorough=40000,
         doc="fermionic tensordot (fused/blockwise/auto, call forms) == "
             "graded contraction x label sign; labels equal the model's"),
+    Law("tensordot_many_legs", lambda ch: law_tensordot(ch, many=True),
+        quick=300, thorough=4000,
+        doc="the same with 4-7 thin contracted legs (ranks up to 8)"),
     Law("conjugate_pair", law_conjugate_pair, quick=1200, thorough=16000,
         doc="products of odd tensors contracted with their own conjugate "
             "(all / some axes, both orders): labels annihilate pairwise"),
